@@ -87,11 +87,15 @@ def run(ctx, optional, brackets, pid, n_quick=400, n_thorough=5000):
         viol.append({'signature': f'corr:stack:{code}', 'case': {'items': c['items']}, 'observed': c['obs'],
                      'what': f'{pid}: stack {j}: the real pipeline and Model/NameLevel.v disagree on {CODES.get(code, code)}'})
     checks = len(cases)
+    for i, c in enumerate(cases):
+        for w in c.get('const_wrong', []):
+            viol.append({'signature': 'oracle:instances-of-a-class-share-arguments', 'case': {'items': c['items']}, 'observed': w,
+                         'what': f'{pid}: stack {i}: the layer {w["item"]} computes {w["got"]} instead of {w["want"]}: it took the constructor argument of an earlier instance'})
+        if not c.get('operands_unchanged', True):
+            viol.append({'signature': 'oracle:operand-changed', 'case': {'items': c['items']},
+                         'what': f'{pid}: stack {i}: composing (>> and Chain) changed what an operand layer lists, serves, returns or treats as a property'})
     if brackets:
         for i, c in enumerate(cases):
-            if not c.get('operands_unchanged', True):
-                viol.append({'signature': 'oracle:operand-changed', 'case': {'items': c['items']},
-                             'what': f'{pid}: stack {i}: composing changed what an operand layer lists, serves or returns'})
             for v in c.get('variants', []):
                 checks += 1
                 a, b = c['obs'], v['obs']
